@@ -4,7 +4,6 @@ import (
 	"fmt"
 	"go/token"
 	"go/types"
-	"math/big"
 	"sort"
 	"strings"
 
@@ -33,19 +32,22 @@ const c16MaxCount = 15 // MS-DTYP 2.4.2: SubAuthorityCount ≤ 15
 
 func runC16(c *Ctx) {
 	r := c.R
-	r.Explanation = "Structural rules on go/ssa for ldap.ParseSIDFromBytes and ldap.GetDomainFromDistinguishedName; nothing is executed. " +
-		"The text a function returns is turned into a TEMPLATE (internal/strtmpl: literals, printed values, repetitions produced by counted loops through `acc += …` or append + strings.Join, fmt.Sprintf with constant formats, strconv.Itoa/Format*); " +
-		"integers that are printed are traced to the input bytes with the bit-lane domain (internal/lanes) and, for reads at loop-dependent offsets, with linear forms (internal/prove). " +
-		"DECIDED for ParseSIDFromBytes: (guard) no early exit can be taken by a well-formed SID — revision byte 1, count byte 0..15, len = 8+4·count — (each edge into a `return <constant>` is shown infeasible under these facts), which together with C07's bounds obligations pins the guard to exactly len ≥ 8+4·count; " +
-		"(text) for every count 0..15 the template, with each loop's trip count evaluated from its bound as a linear form in the count byte, instantiates to exactly `S-` %d `-` %d followed by count × (`-` %d): single dashes, decimal verbs, no other literal; " +
-		"(lanes) the first printed value is byte 0 (or the constant 1 the guard enforces), the second is bytes 2..7 big-endian into 48 bits, and the k-th following one is the 32-bit little-endian word at offset 8+4k, for every count and every k < count. " +
-		"DECIDED for GetDomainFromDistinguishedName: (dn join) the result is a join with the constant separator \".\" of elements produced by forward loops over the decomposed DN; (dn filter) an element is produced only under a test that the attribute type of the SAME component equals the constant DC (case-insensitively or in AD's upper-case spelling) and the element is that component's value (for prefix-style code: the same constant is tested and removed); " +
+	r.Explanation = "Rules on go/ssa for ldap.ParseSIDFromBytes and ldap.GetDomainFromDistinguishedName; no Manticore code is run. " +
+		"ParseSIDFromBytes is decided by ABSTRACT INTERPRETATION (internal/absint over the bit-lane domain of internal/lanes), once per sub-authority count 0..15 — the property's own quantifier — on the input shape MS-DTYP calls well-formed: byte 0 is the constant 1, byte 1 the constant count, the length is exactly 8+4·count, and every other byte is symbolic (lanes in[i].0..7; no data byte is ever chosen). " +
+		"The interpreter follows the branches the header bytes and the length decide, through any loop shape and any number of in-module helpers; the returned text is recovered as literal bytes and PRINTED VALUES (verb + the 64 lanes of the printed integer) however it is assembled: `+=` with fmt.Sprintf, strings.Join, strconv.Itoa/Format*/Append*, fmt.Appendf into a byte buffer + string(b), strings.Builder / bytes.Buffer with WriteString/WriteByte/Fprintf. " +
+		"DECIDED per count: (guard) the run reaches a text, i.e. no guard rejects a well-formed SID and no index leaves the buffer (which together with C07's bounds obligations pins the guard to exactly len ≥ 8+4·count); when a count is rejected, the early exits it can take in the anchored function are named with the linear prover (diagnostic only); " +
+		"(text) the text is exactly `S-` %d `-` %d followed by count × (`-` %d) — or the same with the revision written as the literal 1 — : single dashes, decimal verbs, no other literal; " +
+		"(lanes) the first printed value is the constant 1 the guard enforces for byte 0, the second is bytes 2..7 big-endian into 48 bits, and the k-th following one is the 32-bit little-endian word at offset 8+4k, for every count and every k < count. " +
+		"A run that stops at a construct the interpreter does not model is reported NOT DECIDED (discharged with a note) — it is no evidence of a violation; a run that stops because an index would be out of range, or because a branch depends on data bytes, is undecided (= violation). " +
+		"GetDomainFromDistinguishedName is decided on the TEMPLATE of its result (internal/strtmpl: literals, values, repetitions produced by counted loops through `acc += …`, append + strings.Join, append to a byte buffer + string(b), or writes to a strings.Builder / bytes.Buffer, which is put into SSA form on the fly; `(v + sep)*` + TrimSuffix, `(sep + v)*` + TrimPrefix and `if n > 0 { sep }; v; n++` — n shown to count exactly the values written — are recognised as joins): " +
+		"(dn join) the result is a join with the constant separator \".\" of elements produced by forward loops over the decomposed DN; (dn filter) an element is produced only under a test that the attribute type of the SAME component equals the constant DC (case-insensitively or in AD's upper-case spelling; the test may sit in an in-module helper that is a single `return <test>`) and the element is that component's value (for prefix-style code: the same constant is tested and removed); " +
 		"(dn decomposition) the DN is decomposed by an escape-aware parser (go-ldap ParseDN): splitting on \",\" mis-parses the `\\,` that AD emits inside RDN values; (dn order) components are visited by increasing index. " +
 		"(callers) every in-module caller of ParseSIDFromBytes passes a []byte obtained from GetRawAttributeValue, every caller of GetDomainFromDistinguishedName a string attribute value — recorded, not a rule that can fail on its own. " +
-		"NOT DECIDED: the numeric formatting inside fmt (%d of uint64/uint32/int), the MS-DTYP hexadecimal form of authorities ≥ 2^32, rejection of counts > 15 or of trailing bytes, what ParseDN accepts, DNS name normalisation (case, trailing dots), LDAP search behaviour in objects.go / rid.go."
+		"NOT DECIDED: the numeric formatting inside fmt / strconv (%d of uint64/uint32/int), the MS-DTYP hexadecimal form of authorities ≥ 2^32, rejection of counts > 15 or of trailing bytes, what ParseDN accepts, DNS name normalisation (case, trailing dots), LDAP search behaviour in objects.go / rid.go."
 	r.Assumptions = append(r.Assumptions,
 		"go/parser, go/types and the go/ssa builder of x/tools are correct",
-		"fmt.Sprintf with a constant format and no flags prints its literals verbatim and one token per verb; %d prints the decimal value of an integer",
+		"fmt.Sprintf/Fprintf/Appendf with a constant format and no flags print their literals verbatim and one token per verb; %d, strconv.Itoa and strconv.Format*/Append* in base 10 print the decimal value of an integer",
+		"internal/absint's transfer functions are exact on the lane domain (shared with C13/C14)",
 		"github.com/go-ldap/ldap/v3.ParseDN decomposes a DN per RFC 4514 (escaped separators stay inside values) and returns RDNs and attributes in document order",
 		"a well-formed binary SID is revision 1, count 0..15, exactly 8+4·count bytes (MS-DTYP 2.4.2.2)")
 
@@ -58,7 +60,7 @@ func runC16(c *Ctx) {
 	c16SID(c, w)
 	c16DN(c)
 	c16Callers(c)
-	r.Floor(c16RGuard, 3)
+	r.Floor(c16RGuard, c16MaxCount+1) // one per sub-authority count 0..15, whatever the code looks like
 	r.Floor(c16RText, 16)
 	r.Floor(c16RLane, 17)
 	r.Floor(c16RDN, 4)
@@ -68,14 +70,12 @@ func runC16(c *Ctx) {
 // ParseSIDFromBytes
 
 type c16sid struct {
-	c    *Ctx
-	w    *prove.World
-	fn   *ssa.Function
-	fi   *prove.FuncInfo
-	buf  *ssa.Parameter
-	an   *lanes.Analyzer
-	root *lanes.Frame
-	ex   lanes.Analyzer
+	c   *Ctx
+	w   *prove.World
+	fn  *ssa.Function
+	fi  *prove.FuncInfo
+	buf *ssa.Parameter
+	ex  lanes.Analyzer
 }
 
 // byteLoad: v is *(&buf[k]) with constant k.
@@ -95,33 +95,6 @@ func (s *c16sid) byteLoad(v ssa.Value) (int, bool) {
 	return int(k), true
 }
 
-func c16BinaryRead(cc *ssa.CallCommon) (bigEndian bool, bits int, ok bool) {
-	fn := cc.StaticCallee()
-	if fn == nil || fn.Pkg == nil || fn.Pkg.Pkg.Path() != "encoding/binary" || fn.Signature.Recv() == nil || len(cc.Args) != 2 {
-		return false, 0, false
-	}
-	nt, isN := fn.Signature.Recv().Type().(*types.Named)
-	if !isN {
-		return false, 0, false
-	}
-	switch nt.Obj().Name() {
-	case "bigEndian":
-		bigEndian = true
-	case "littleEndian":
-	default:
-		return false, 0, false
-	}
-	switch fn.Name() {
-	case "Uint16":
-		return bigEndian, 16, true
-	case "Uint32":
-		return bigEndian, 32, true
-	case "Uint64":
-		return bigEndian, 64, true
-	}
-	return false, 0, false
-}
-
 func c16ReadVec(off int, bits int, bigEndian bool) lanes.Vec {
 	out := make(lanes.Vec, 0, bits)
 	for j := 0; j < bits/8; j++ { // j = byte significance
@@ -132,131 +105,6 @@ func c16ReadVec(off int, bits int, bigEndian bool) lanes.Vec {
 		out = append(out, lanes.SrcByte(0, off+i)...)
 	}
 	return out
-}
-
-// window: v is buf or buf[lo:…]; returns the low bound value (nil = 0).
-func (s *c16sid) window(v ssa.Value) (lo ssa.Value, ok bool) {
-	switch x := v.(type) {
-	case *ssa.Parameter:
-		return nil, x == s.buf
-	case *ssa.Slice:
-		if x.X == ssa.Value(s.buf) {
-			return x.Low, true
-		}
-	}
-	return nil, false
-}
-
-type c16env struct {
-	count int
-	iter  map[*strtmpl.Loop]int
-}
-
-// evalForm evaluates a linear form whose terms are the count byte, len(buf) and loop indexes.
-func (s *c16sid) evalForm(f lin.Form, env c16env) (int64, string) {
-	total := new(big.Int).Set(f.C)
-	for t, coef := range f.Coef {
-		v, isLen := s.fi.TermValue(t)
-		var val int64
-		switch {
-		case isLen && v == ssa.Value(s.buf):
-			val = int64(8 + 4*env.count)
-		case isLen:
-			return 0, "length of a value other than the input"
-		default:
-			if k, ok := s.byteLoad(v); ok && k == 1 {
-				val = int64(env.count)
-			} else if k, ok := s.byteLoad(v); ok && k == 0 {
-				val = 1
-			} else {
-				found := false
-				for l, it := range env.iter {
-					if v == ssa.Value(l.Index) {
-						val, found = l.Start+int64(it), true
-					}
-				}
-				if !found {
-					return 0, "term " + s.ex.Expr(v) + " is neither the count byte, len(input) nor a loop index"
-				}
-			}
-		}
-		total.Add(total, new(big.Int).Mul(coef, big.NewInt(val)))
-	}
-	if !total.IsInt64() {
-		return 0, "offset out of range"
-	}
-	return total.Int64(), ""
-}
-
-// provenance of a printed integer: its 64 lanes (zero/sign-extended) over input bytes.
-func (s *c16sid) provenance(v ssa.Value, env c16env) (lanes.Vec, string) {
-	inner := v
-	for {
-		if cv, ok := inner.(*ssa.Convert); ok {
-			inner = cv.X
-			continue
-		}
-		if ct, ok := inner.(*ssa.ChangeType); ok {
-			inner = ct.X
-			continue
-		}
-		break
-	}
-	if call, ok := inner.(*ssa.Call); ok {
-		if be, bits, ok := c16BinaryRead(call.Common()); ok {
-			lo, ok := s.window(call.Common().Args[1])
-			if !ok {
-				return nil, "binary read of something other than a window of the input"
-			}
-			off := int64(0)
-			if lo != nil {
-				ctx := s.fi.CtxAt(call.Block())
-				var why string
-				off, why = s.evalForm(ctx.Lin(lo), env)
-				if why != "" {
-					return nil, why
-				}
-			}
-			if off < 0 || off > 1<<16 {
-				return nil, fmt.Sprintf("read at offset %d", off)
-			}
-			vec := c16ReadVec(int(off), bits, be)
-			// re-apply the conversions between the read and the printed value
-			return s.applyConversions(v, inner, vec), ""
-		}
-	}
-	vec := s.root.Lanes(v)
-	if vec == nil {
-		return nil, "printed value is not an integer"
-	}
-	_, signed, _ := lanes.IntWidth(v.Type())
-	return vec.Resize(64, signed), ""
-}
-
-func (s *c16sid) applyConversions(outer, inner ssa.Value, vec lanes.Vec) lanes.Vec {
-	// collect the chain outer → inner
-	var chain []ssa.Value
-	for x := outer; x != inner; {
-		chain = append(chain, x)
-		switch y := x.(type) {
-		case *ssa.Convert:
-			x = y.X
-		case *ssa.ChangeType:
-			x = y.X
-		default:
-			x = inner
-		}
-	}
-	_, signed, _ := lanes.IntWidth(inner.Type())
-	for i := len(chain) - 1; i >= 0; i-- {
-		w, sg, ok := lanes.IntWidth(chain[i].Type())
-		if !ok {
-			return lanes.TopVec(64)
-		}
-		vec = vec.Resize(w, signed)
-		signed = sg
-	}
-	return vec.Resize(64, signed)
 }
 
 func c16VecName(b lanes.Bit) string { return fmt.Sprintf("in[%d].%d", b.I, b.B) }
@@ -277,132 +125,18 @@ func c16SID(c *Ctx, w *prove.World) {
 			}
 		}
 	}
-	if buf == nil || fn.Signature.Results().Len() != 1 || !c20IsString(fn.Signature.Results().At(0).Type()) {
+	if buf == nil || len(fn.Params) != 1 || fn.Signature.Results().Len() != 1 || !c20IsString(fn.Signature.Results().At(0).Type()) {
 		r.Undecided("anchor", name, p.Rel(fn.Pos()), "signature is not func([]byte) string")
 		return
 	}
 	r.OK("anchor", name, p.Rel(fn.Pos()), "resolved: func([]byte) string")
-	s := &c16sid{c: c, w: w, fn: fn, fi: w.Info(fn), buf: buf}
-	s.an = &lanes.Analyzer{InModule: p.InModule}
-	s.an.Leaf = func(f *lanes.Frame, v ssa.Value) (lanes.Vec, bool) {
-		if k, ok := s.byteLoad(v); ok {
-			return lanes.SrcByte(0, k), true
-		}
-		if call, ok := v.(*ssa.Call); ok {
-			if be, bits, ok := c16BinaryRead(call.Common()); ok {
-				if lo, ok := s.window(call.Common().Args[1]); ok {
-					off := int64(0)
-					if lo != nil {
-						k, isK := c20ConstInt(lo)
-						if !isK {
-							return nil, false
-						}
-						off = k
-					}
-					return c16ReadVec(int(off), bits, be), true
-				}
-			}
-		}
-		return nil, false
-	}
-	s.root = s.an.Root(fn)
+	pos := p.Rel(fn.Pos())
 
-	// all loads of the revision and count bytes
-	var loads0, loads1 []ssa.Value
-	for _, b := range fn.Blocks {
-		for _, in := range b.Instrs {
-			if v, ok := in.(ssa.Value); ok {
-				if k, ok := s.byteLoad(v); ok {
-					if k == 0 {
-						loads0 = append(loads0, v)
-					} else if k == 1 {
-						loads1 = append(loads1, v)
-					}
-				}
-			}
-		}
-	}
-	if len(loads1) == 0 {
-		r.Undecided(c16RGuard, name+": sub-authority count", p.Rel(fn.Pos()), "the function never reads byte 1 (SubAuthorityCount) of its input")
-		return
-	}
-	// well-formedness facts; count < 0 means "any count 0..15"
-	wf := func(ctx *prove.Ctx, count int) {
-		for _, l := range loads0 {
-			ctx.AddFact(lin.EQ(ctx.Lin(l), lin.K(1))...)
-		}
-		cnt := ctx.Lin(loads1[0])
-		for _, l := range loads1[1:] {
-			ctx.AddFact(lin.EQ(ctx.Lin(l), cnt)...)
-		}
-		if count >= 0 {
-			ctx.AddFact(lin.EQ(cnt, lin.K(int64(count)))...)
-		} else {
-			ctx.AddFact(lin.GE0(cnt), lin.LE(cnt, lin.K(c16MaxCount)))
-		}
-		ctx.AddFact(lin.EQ(ctx.LenOf(buf), cnt.ScaleI(4).AddK(8))...)
-	}
-
-	// ---- guard: early exits
-	type ret struct {
-		in    *ssa.Return
-		konst bool
-	}
-	var rets []ret
-	for _, b := range fn.Blocks {
-		if rt, ok := b.Instrs[len(b.Instrs)-1].(*ssa.Return); ok {
-			_, isK := rt.Results[0].(*ssa.Const)
-			rets = append(rets, ret{rt, isK})
-		}
-	}
-	nMain := 0
-	for _, rt := range rets {
-		if !rt.konst {
-			nMain++
-			continue
-		}
-		b := rt.in.Block()
-		kv, _ := c20ConstString(rt.in.Results[0])
-		for _, pred := range b.Preds {
-			cond := "entry"
-			if iff, ok := pred.Instrs[len(pred.Instrs)-1].(*ssa.If); ok {
-				cond = s.ex.Expr(iff.Cond)
-				if pred.Succs[1] == b && pred.Succs[0] != b {
-					cond = "!(" + cond + ")"
-				}
-			}
-			construct := fmt.Sprintf("%s: early return %q when %s", name, kv, cond)
-			c.guard(c16RGuard, construct, p.Rel(rt.in.Pos()), func() {
-				ctx := s.fi.CtxEdge(pred, b)
-				wf(ctx, -1)
-				if ctx.Infeasible() {
-					r.OK(c16RGuard, construct, p.Rel(rt.in.Pos()), "no well-formed SID (revision 1, count 0..15, len = 8+4·count) takes this exit")
-					return
-				}
-				var wit []string
-				for n := 0; n <= c16MaxCount; n++ {
-					cx := s.fi.CtxEdge(pred, b)
-					wf(cx, n)
-					if !cx.Infeasible() {
-						wit = append(wit, fmt.Sprint(n))
-					}
-				}
-				r.Fail(c16RGuard, construct, p.Rel(rt.in.Pos()), fmt.Sprintf("a well-formed SID can take this exit and is answered %q instead of its text form (not excluded for sub-authority count ∈ {%s})", kv, strings.Join(wit, ",")))
-			})
-		}
-	}
-	if nMain == 0 {
-		r.Undecided(c16RText, name+": text form", p.Rel(fn.Pos()), "the function has no return that builds a text")
-		return
-	}
-
-	// ---- text + lanes, per main return and per count
 	type laneIssue struct {
 		fails, unds []string
 		seen        int
 	}
-	laneKeys := []string{"revision"}
-	laneKeys = append(laneKeys, "identifier authority")
+	laneKeys := []string{"revision", "identifier authority"}
 	for k := 0; k < c16MaxCount; k++ {
 		laneKeys = append(laneKeys, fmt.Sprintf("sub-authority #%d", k))
 	}
@@ -419,99 +153,106 @@ func c16SID(c *Ctx, w *prove.World) {
 		}
 		return c16ReadVec(8+4*(idx-2), 32, false).Resize(64, false)
 	}
-	var templates []string
-	for _, rt := range rets {
-		if rt.konst {
-			continue
+	plural := func(n int) string {
+		if n == 1 {
+			return "y"
 		}
-		ev := strtmpl.New()
-		tmpl, terr := ev.String(rt.in.Results[0])
-		if terr == nil {
-			templates = append(templates, strtmpl.Describe(tmpl))
-		}
-		for n := 0; n <= c16MaxCount; n++ {
-			construct := fmt.Sprintf("%s: text for %d sub-authorit%s", name, n, map[bool]string{true: "y", false: "ies"}[n == 1])
-			c.guard(c16RText, construct, p.Rel(rt.in.Pos()), func() {
-				if terr != nil {
-					r.Undecided(c16RText, construct, p.Rel(rt.in.Pos()), "the construction of the text is not modelled: "+terr.Error())
+		return "ies"
+	}
+
+	// ---- one abstract run per sub-authority count
+	var rejected []int
+	rejectedAs := map[int]string{}
+	notDecided := map[string][]int{}
+	texts := map[string][]int{}
+	helpers := map[string]bool{}
+	for n := 0; n <= c16MaxCount; n++ {
+		gname := fmt.Sprintf("%s: a well-formed SID with %d sub-authorit%s is answered with its text", name, n, plural(n))
+		tname := fmt.Sprintf("%s: text for %d sub-authorit%s", name, n, plural(n))
+		c.guard(c16RGuard, gname, pos, func() {
+			out := c16Exec(c, fn, n)
+			for _, f := range out.funcs {
+				helpers[f] = true
+			}
+			if out.abort != "" {
+				why := out.abort
+				if len(out.soft) > 0 {
+					why += " [" + strings.Join(c20Dedup(out.soft), "; ") + "]"
+				}
+				if len(out.unknown) > 0 {
+					why += " [calls with an unknown result: " + strings.Join(c20Dedup(out.unknown), ", ") + "]"
+				}
+				if out.unmodel {
+					notDecided[why] = append(notDecided[why], n)
+					r.OK(c16RGuard, gname, pos, "NOT DECIDED — "+why)
+					r.OK(c16RText, tname, pos, "NOT DECIDED — "+why)
 					return
 				}
-				ctx := s.fi.CtxAt(rt.in.Block())
-				wf(ctx, n)
-				if ctx.Infeasible() {
-					r.Fail(c16RText, construct, p.Rel(rt.in.Pos()), "no text is produced for this count: the guards reject it (see the guard rule)")
-					return
+				r.Undecided(c16RGuard, gname, pos, "the abstract run on this input does not reach a result: "+why)
+				r.Undecided(c16RText, tname, pos, "no text: the abstract run does not reach a result (see the guard rule)")
+				return
+			}
+			toks := out.toks
+			nvals := 0
+			for _, t := range toks {
+				if t.val != nil {
+					nvals++
 				}
-				envc := c16env{count: n}
-				env := &strtmpl.Env{Trip: func(l *strtmpl.Loop, outer map[*strtmpl.Loop]int) (int, error) {
-					lc := s.fi.CtxAt(l.Header)
-					e2 := c16env{count: n, iter: outer}
-					bound, why := s.evalForm(lc.Lin(l.Bound), e2)
-					if why != "" {
-						return 0, fmt.Errorf("loop bound: %s", why)
-					}
-					first := l.Start
-					if l.Range {
-						first = l.Start + 1
-					}
-					trip := bound - first
-					if l.Op == token.LEQ {
-						trip++
-					}
-					if trip < 0 {
-						trip = 0
-					}
-					if trip > 64 {
-						return 0, fmt.Errorf("loop runs %d times", trip)
-					}
-					return int(trip), nil
-				}}
-				toks, err := env.Items(tmpl, map[*strtmpl.Loop]int{})
-				if err != nil {
-					r.Undecided(c16RText, construct, p.Rel(rt.in.Pos()), err.Error())
-					return
+			}
+			got := c16Render(toks)
+			if nvals == 0 {
+				rejected = append(rejected, n)
+				rejectedAs[n] = got
+				r.Fail(c16RGuard, gname, pos, fmt.Sprintf("it is answered with the constant %q: a guard rejects this well-formed input (revision 1, count %d, %d bytes)", got, n, 8+4*n))
+				r.Fail(c16RText, tname, pos, "no text is produced for this count: the guards reject it (see the guard rule)")
+				return
+			}
+			r.OK(c16RGuard, gname, pos, "no guard rejects revision 1, count "+fmt.Sprint(n)+", length "+fmt.Sprint(8+4*n)+"; no index leaves the buffer")
+			texts[got] = append(texts[got], n)
+			want := "S-%d-%d" + strings.Repeat("-%d", n)
+			wantLit := "S-1-%d" + strings.Repeat("-%d", n)
+			vi := 0
+			switch got {
+			case want:
+			case wantLit:
+				vi = 1
+				issues[laneKeys[0]].seen++
+			default:
+				r.Fail(c16RText, tname, pos, fmt.Sprintf("the text is built as %q, the canonical form is %q", got, want))
+				return
+			}
+			r.OK(c16RText, tname, pos, "instantiates to "+got)
+			for _, t := range toks {
+				if t.val == nil {
+					continue
 				}
-				toks = strtmpl.Merge(toks)
-				want := "S-%d-%d" + strings.Repeat("-%d", n)
-				got := strtmpl.Render(toks)
-				if got != want {
-					r.Fail(c16RText, construct, p.Rel(rt.in.Pos()), fmt.Sprintf("the text is built as %q, the canonical form is %q (template: %s)", got, want, strtmpl.Describe(tmpl)))
-					return
+				is := issues[laneKeys[vi]]
+				is.seen++
+				vec := t.val.vec
+				switch {
+				case vi == 0:
+					if k, ok := vec.ConstVal(); !ok || k.Int64() != 1 {
+						is.fails = append(is.fails, fmt.Sprintf("count %d: printed value has lanes %s, MS-DTYP says %s (the constant 1 on a well-formed SID)", n, vec.String(c16VecName), expectVec(0).String(c16VecName)))
+					}
+				case vec.HasTop():
+					is.unds = append(is.unds, fmt.Sprintf("count %d: lanes %s", n, vec.String(c16VecName)))
+				case !vec.Equal(expectVec(vi)):
+					is.fails = append(is.fails, fmt.Sprintf("count %d: printed value has lanes %s, MS-DTYP says %s", n, vec.String(c16VecName), expectVec(vi).String(c16VecName)))
 				}
-				r.OK(c16RText, construct, p.Rel(rt.in.Pos()), "instantiates to "+want)
-				// lanes of every printed value
-				vi := 0
-				for _, t := range toks {
-					if t.Val == nil {
-						continue
-					}
-					key := laneKeys[0]
-					if vi < len(laneKeys) {
-						key = laneKeys[vi]
-					}
-					is := issues[key]
-					is.seen++
-					e2 := envc
-					e2.iter = t.Iter
-					got, why := s.provenance(t.Val, e2)
-					switch {
-					case why != "":
-						is.unds = append(is.unds, fmt.Sprintf("count %d: %s", n, why))
-					case vi == 0 && func() bool { k, ok := got.ConstVal(); return ok && k.Int64() == 1 }():
-					case got.HasTop():
-						is.unds = append(is.unds, fmt.Sprintf("count %d: lanes %s (%s)", n, got.String(c16VecName), strings.Join(s.an.Why, "; ")))
-					case !got.Equal(expectVec(vi)):
-						is.fails = append(is.fails, fmt.Sprintf("count %d: printed value has lanes %s, MS-DTYP says %s", n, got.String(c16VecName), expectVec(vi).String(c16VecName)))
-					}
-					vi++
-				}
-			})
-		}
+				vi++
+			}
+		})
+	}
+	for why, ns := range notDecided {
+		r.Note("C16 %s: NOT DECIDED for sub-authority counts %v — %s", name, ns, why)
+	}
+	if len(rejected) > 0 {
+		c16GuardDiag(c, w, fn, buf, rejected)
 	}
 	for i, k := range laneKeys {
 		is := issues[k]
 		construct := name + ": " + k
-		what := []string{"byte 0", "bytes 2..7 big-endian (48 bits)"}
+		what := []string{"byte 0 (the constant 1 the guard enforces)", "bytes 2..7 big-endian (48 bits)"}
 		desc := ""
 		if i < 2 {
 			desc = what[i]
@@ -520,16 +261,101 @@ func c16SID(c *Ctx, w *prove.World) {
 		}
 		switch {
 		case len(is.fails) > 0:
-			r.Fail(c16RLane, construct, p.Rel(fn.Pos()), strings.Join(c20Dedup(is.fails)[:min(3, len(c20Dedup(is.fails)))], " | "))
+			r.Fail(c16RLane, construct, pos, strings.Join(c20Dedup(is.fails)[:min(3, len(c20Dedup(is.fails)))], " | "))
 		case len(is.unds) > 0:
-			r.Undecided(c16RLane, construct, p.Rel(fn.Pos()), strings.Join(c20Dedup(is.unds)[:min(3, len(c20Dedup(is.unds)))], " | "))
+			r.Undecided(c16RLane, construct, pos, strings.Join(c20Dedup(is.unds)[:min(3, len(c20Dedup(is.unds)))], " | "))
+		case is.seen == 0 && len(notDecided) > 0:
+			r.OK(c16RLane, construct, pos, "NOT DECIDED — no text was obtained (see the notes)")
 		case is.seen == 0:
-			r.Undecided(c16RLane, construct, p.Rel(fn.Pos()), "never printed by a text that matched the canonical form")
+			r.Undecided(c16RLane, construct, pos, "never printed by a text that matched the canonical form")
 		default:
-			r.OK(c16RLane, construct, p.Rel(fn.Pos()), fmt.Sprintf("%s in all %d instantiations", desc, is.seen))
+			r.OK(c16RLane, construct, pos, fmt.Sprintf("%s in all %d instantiations", desc, is.seen))
 		}
 	}
-	r.Extra["sid_templates"] = templates
+	var shapes []string
+	for t, ns := range texts {
+		shapes = append(shapes, fmt.Sprintf("counts %v: %s", ns, t))
+	}
+	sort.Strings(shapes)
+	r.Extra["sid_texts"] = shapes
+	var hs []string
+	for h := range helpers {
+		hs = append(hs, h)
+	}
+	sort.Strings(hs)
+	r.Extra["sid_functions_interpreted"] = hs
+}
+
+// c16GuardDiag names the early exits a rejected well-formed SID can take. It is
+// a DIAGNOSTIC of the verdict the abstract runs already reached (it only adds
+// detail to failures): for code that reads the header bytes in the anchored
+// function itself, every edge into a `return <constant>` is tested for
+// feasibility under the well-formedness facts with the linear prover.
+func c16GuardDiag(c *Ctx, w *prove.World, fn *ssa.Function, buf *ssa.Parameter, rejected []int) {
+	r, p := c.R, c.P
+	name := p.FuncName(fn)
+	s := &c16sid{c: c, w: w, fn: fn, fi: w.Info(fn), buf: buf}
+	var loads0, loads1 []ssa.Value
+	for _, b := range fn.Blocks {
+		for _, in := range b.Instrs {
+			if v, ok := in.(ssa.Value); ok {
+				if k, ok := s.byteLoad(v); ok {
+					if k == 0 {
+						loads0 = append(loads0, v)
+					} else if k == 1 {
+						loads1 = append(loads1, v)
+					}
+				}
+			}
+		}
+	}
+	if len(loads1) == 0 {
+		return
+	}
+	wf := func(ctx *prove.Ctx, count int) {
+		for _, l := range loads0 {
+			ctx.AddFact(lin.EQ(ctx.Lin(l), lin.K(1))...)
+		}
+		cnt := ctx.Lin(loads1[0])
+		for _, l := range loads1[1:] {
+			ctx.AddFact(lin.EQ(ctx.Lin(l), cnt)...)
+		}
+		ctx.AddFact(lin.EQ(cnt, lin.K(int64(count)))...)
+		ctx.AddFact(lin.EQ(ctx.LenOf(buf), cnt.ScaleI(4).AddK(8))...)
+	}
+	for _, b := range fn.Blocks {
+		rt, ok := b.Instrs[len(b.Instrs)-1].(*ssa.Return)
+		if !ok {
+			continue
+		}
+		if _, isK := rt.Results[0].(*ssa.Const); !isK {
+			continue
+		}
+		kv, _ := c20ConstString(rt.Results[0])
+		for _, pred := range b.Preds {
+			cond := "entry"
+			if iff, ok := pred.Instrs[len(pred.Instrs)-1].(*ssa.If); ok {
+				cond = s.ex.Expr(iff.Cond)
+				if pred.Succs[1] == b && pred.Succs[0] != b {
+					cond = "!(" + cond + ")"
+				}
+			}
+			construct := fmt.Sprintf("%s: early return %q when %s", name, kv, cond)
+			c.guard(c16RGuard, construct, p.Rel(rt.Pos()), func() {
+				var wit []string
+				for _, n := range rejected {
+					cx := s.fi.CtxEdge(pred, b)
+					wf(cx, n)
+					if !cx.Infeasible() {
+						wit = append(wit, fmt.Sprint(n))
+					}
+				}
+				if len(wit) > 0 {
+					r.Fail(c16RGuard, construct, p.Rel(rt.Pos()), fmt.Sprintf("a well-formed SID can take this exit and is answered %q instead of its text form (not excluded for sub-authority count ∈ {%s})", kv, strings.Join(wit, ",")))
+				}
+			})
+		}
+	}
 }
 
 // ---------------------------------------------------------------------------
@@ -571,11 +397,14 @@ func c16DN(c *Ctx) {
 	}
 	rt := mains[0]
 	ev := strtmpl.New()
+	ev.InModule = p.InModule // in-module helpers that build the list / the text are entered
 	tmpl, err := ev.String(rt.Results[0])
 	if err != nil {
 		r.Undecided(c16RDN, name+": join", p.Rel(rt.Pos()), "the construction of the result is not modelled: "+err.Error())
 		return
 	}
+	// `if n > 0 { write(".") }; write(value); n++` (any buffer, any counter placement that counts exactly the written values) is a join
+	tmpl = ev.Joinify(tmpl)
 	r.Extra["dn_template"] = strtmpl.Describe(tmpl)
 	// shape: one join whose only element source is a (possibly nested) loop producing one element under one filter
 	if len(tmpl) != 1 || tmpl[0].Kind != strtmpl.Join || len(tmpl[0].Parts) != 1 {
@@ -583,7 +412,16 @@ func c16DN(c *Ctx) {
 		return
 	}
 	j := tmpl[0]
-	if j.Sep == "." {
+	if strings.HasPrefix(j.Assume, "?") {
+		r.OK(c16RDN, name+": join", p.Rel(rt.Pos()), "NOT DECIDED — the values are written one after the other with "+fmt.Sprintf("%q", j.Sep)+" in front of each under a condition this rule does not interpret: "+j.Assume[1:])
+		r.Note("C16 %s: join NOT DECIDED — %s (template %s)", name, j.Assume[1:], strtmpl.Describe(tmpl))
+		if j.Sep != "." {
+			r.Fail(c16RDN, name+": join separator", p.Rel(rt.Pos()), fmt.Sprintf("components are separated by %q, a DNS name joins its labels with \".\"", j.Sep))
+		}
+	} else if j.Sep == "." && j.Assume != "" {
+		r.OK(c16RDN, name+": join", p.Rel(rt.Pos()), "components are joined with the constant \".\" provided "+j.Assume+" — Active Directory never emits an empty DC value")
+		r.Note("C16 %s: the separator is keyed on the text written so far, which equals strings.Join only when %s", name, j.Assume)
+	} else if j.Sep == "." {
 		r.OK(c16RDN, name+": join", p.Rel(rt.Pos()), "components are joined with the constant \".\" (no leading/trailing separator by construction of a join)")
 	} else {
 		r.Fail(c16RDN, name+": join", p.Rel(rt.Pos()), fmt.Sprintf("components are joined with %q, a DNS name joins its labels with \".\"", j.Sep))
@@ -638,7 +476,7 @@ func c16DN(c *Ctx) {
 			r.Fail(c16RDN, name+": filter", p.Rel(rt.Pos()), "the component is kept when the test "+ex.Expr(f.Cond)+" FAILS: every component but the tested kind ends up in the domain")
 			return
 		}
-		ok, why := c16FilterMatches(f.Cond, elem, neqAsEq)
+		ok, why := c16FilterMatches(c, f.Cond, elem, neqAsEq, nil, 0)
 		if why != "" && !ok {
 			if strings.HasPrefix(why, "?") {
 				r.Undecided(c16RDN, name+": filter", p.Rel(rt.Pos()), why[1:])
@@ -668,7 +506,12 @@ func c16DN(c *Ctx) {
 			}
 			seen[v] = true
 			switch x := v.(type) {
-			case *ssa.Parameter, *ssa.Const, *ssa.Global:
+			case *ssa.Parameter:
+				if b := ev.Bound(x); b != nil {
+					walk(b, d+1) // parameter of a helper that was entered: go on in the caller
+				}
+				return
+			case *ssa.Const, *ssa.Global:
 				return
 			case *ssa.IndexAddr:
 				if counters[x.Index] {
@@ -683,6 +526,13 @@ func c16DN(c *Ctx) {
 				pkg, _, nm := c20CalleeName(cc)
 				takesDN := false
 				for _, a := range cc.Args {
+					for i := 0; i < 4; i++ {
+						q, isP := a.(*ssa.Parameter)
+						if !isP || ev.Bound(q) == nil {
+							break
+						}
+						a = ev.Bound(q)
+					}
 					if a == ssa.Value(prm) {
 						takesDN = true
 					}
@@ -785,13 +635,29 @@ func c16Stored(sl ssa.Value) bool {
 
 // c16FilterMatches: cond tests "the attribute type of the component is DC" and elem is that component's value.
 // A leading '?' in the reason means undecided.
-func c16FilterMatches(cond ssa.Value, elem ssa.Value, neqAsEq bool) (bool, string) {
+//
+// A test that is delegated to an in-module helper whose body is a single
+// `return <test>` (isDomainComponent(attribute.Type), isDC(attribute)) is
+// decided on the helper's returned expression with the helper's parameters
+// replaced by the arguments of the call (subst), up to two levels deep.
+func c16FilterMatches(c *Ctx, cond ssa.Value, elem ssa.Value, neqAsEq bool, subst map[ssa.Value]ssa.Value, depth int) (bool, string) {
 	var ex lanes.Analyzer
+	res := func(v ssa.Value) ssa.Value {
+		for i := 0; i < 4; i++ {
+			w, ok := subst[v]
+			if !ok {
+				break
+			}
+			v = w
+		}
+		return v
+	}
 	unfold := func(v ssa.Value) (ssa.Value, string) { // ToUpper/ToLower wrappers
+		v = res(v)
 		if call, ok := v.(*ssa.Call); ok {
 			pkg, _, nm := c20CalleeName(call.Common())
 			if pkg == "strings" && (nm == "ToUpper" || nm == "ToLower" || nm == "TrimSpace") {
-				return call.Common().Args[0], nm
+				return res(call.Common().Args[0]), nm
 			}
 		}
 		return v, ""
@@ -818,8 +684,11 @@ func c16FilterMatches(cond ssa.Value, elem ssa.Value, neqAsEq bool) (bool, strin
 				return false, fmt.Sprintf("the lower-cased attribute type is compared with %q", konst)
 			}
 		}
-		tb, tf := fieldOf(typ)
+		tb, tf := fieldOf(res(typ))
 		eb, ef := fieldOf(elem)
+		if tb != nil {
+			tb = res(tb)
+		}
 		if tb == nil || eb == nil {
 			return false, "?the tested type or the kept value is not a field of a parsed component"
 		}
@@ -835,8 +704,42 @@ func c16FilterMatches(cond ssa.Value, elem ssa.Value, neqAsEq bool) (bool, strin
 	case *ssa.Call:
 		pkg, _, nm := c20CalleeName(x.Common())
 		args := x.Common().Args
+		if g := x.Common().StaticCallee(); g != nil && g.Blocks != nil && c.P.InModule(g) && depth < 2 {
+			var rets []*ssa.Return
+			for _, b := range g.Blocks {
+				if rt, ok := b.Instrs[len(b.Instrs)-1].(*ssa.Return); ok {
+					rets = append(rets, rt)
+				}
+			}
+			if len(rets) != 1 || len(rets[0].Results) != 1 || len(g.Params) != len(args) {
+				return false, "?the test is delegated to " + g.Name() + ", which is not a single `return <test>`"
+			}
+			sub := map[ssa.Value]ssa.Value{}
+			for k, v := range subst {
+				sub[k] = v
+			}
+			for i, q := range g.Params {
+				sub[q] = res(args[i])
+			}
+			inner, truth := rets[0].Results[0], true
+			for {
+				u, ok := inner.(*ssa.UnOp)
+				if !ok || u.Op != token.NOT {
+					break
+				}
+				inner, truth = u.X, !truth
+			}
+			innerNeq := false
+			if bo, ok := inner.(*ssa.BinOp); ok && bo.Op == token.NEQ && !truth {
+				innerNeq, truth = true, true
+			}
+			if !truth {
+				return false, "the component is kept when the test inside " + g.Name() + " FAILS: every component but the tested kind ends up in the domain"
+			}
+			return c16FilterMatches(c, inner, elem, innerNeq, sub, depth+1)
+		}
 		if pkg == "strings" && nm == "EqualFold" {
-			a, b := args[0], args[1]
+			a, b := res(args[0]), res(args[1])
 			if k, ok := c20ConstString(a); ok {
 				return typeVsValue(b, k, "fold")
 			}
@@ -851,6 +754,9 @@ func c16FilterMatches(cond ssa.Value, elem ssa.Value, neqAsEq bool) (bool, strin
 				return false, "?prefix is not a constant"
 			}
 			src, norm := unfold(args[0])
+			if len(subst) > 0 {
+				return false, "?a prefix test inside a helper is not modelled"
+			}
 			want := map[string]string{"": "DC=", "ToUpper": "DC=", "ToLower": "dc="}[norm]
 			if k != want {
 				return false, fmt.Sprintf("components are kept when they start with %q, the attribute type of a domain component is %q", k, want)
@@ -883,7 +789,7 @@ func c16FilterMatches(cond ssa.Value, elem ssa.Value, neqAsEq bool) (bool, strin
 		}
 	case *ssa.BinOp:
 		if x.Op == token.EQL || (neqAsEq && x.Op == token.NEQ) {
-			a, b := x.X, x.Y
+			a, b := res(x.X), res(x.Y)
 			if k, ok := c20ConstString(a); ok {
 				src, norm := unfold(b)
 				return typeVsValue(src, k, norm)
